@@ -32,7 +32,6 @@ type c03Probe struct {
 func (n *c03Probe) Prep(ctx context.Context, s *SharedStore) (any, error) {
 	m := n.m
 	vAssert(m.expected == n.id, "visited-node-is-the-one-the-table-determines")
-	vAssert(s == m.store, "node-sees-the-flow-store")
 	m.visits++
 	m.perNode[n.id]++
 	// cycles are cut at the visit bound (reported as outside the bound)
